@@ -883,6 +883,10 @@ def simulate(plan, schedule=None, wall_timeout=120.0, attach=None):
             env.count('instruction_points_inside_shared_state_lines_visited', sim.ipoint_hits)
         if sim.body_codes:
             env.count('module_bodies_under_construction_made_preemptible', sim.body_codes)
+        if sim.lock_events:
+            env.count('simulated_locks_taken', sim.lock_events)
+        if sim.lock_blocks:
+            env.count('simulated_lock_found_taken:baton_handed_on', sim.lock_blocks)
         n_instr = sum(1 for s in sim.switches if len(s) > 3)
         if n_instr:
             env.count('preempt_inside_a_source_line', n_instr)
